@@ -304,6 +304,25 @@ func (w *WEval) term(v ssa.Value) string {
 			if g := w.getterTerm(sc, x); g != "" {
 				return g
 			}
+			// a helper outside the baseline list that hands back one value: named by what it returns
+			if inlineHelper != nil && inlineHelper(sc) && w.depth < 4 && len(sc.Blocks) > 0 && sc.Signature.Results().Len() == 1 {
+				var rets []*ssa.Return
+				for _, b := range sc.Blocks {
+					if r, ok := b.Instrs[len(b.Instrs)-1].(*ssa.Return); ok {
+						rets = append(rets, r)
+					}
+				}
+				if len(rets) == 1 {
+					sub := newWEval(w.P, sc)
+					sub.depth = w.depth + 1
+					for i, p := range sc.Params {
+						if i < len(x.Call.Args) {
+							sub.args[p] = w.term(x.Call.Args[i])
+						}
+					}
+					return sub.term(rets[0].Results[0])
+				}
+			}
 			// tx.InputIdx(i) / tx.OutputIdx(i) return tx.Inputs[i] / tx.Outputs[i] (or nil out of range)
 			if n := funcName(sc); (n == "(*bt.Tx).InputIdx" || n == "(*bt.Tx).OutputIdx") && len(x.Call.Args) == 2 {
 				coll := ".Inputs["
